@@ -60,6 +60,11 @@ func vstubResolveTCPAddr(network, address string) (*net.TCPAddr, error) {
 	if len(address) == 0 {
 		return nil, vErrMissingPort
 	}
+	if address == "[::ffff:10.0.0.3]:1003" {
+		// a second spelling of an address (IPv4-mapped literal): resolves to the plain form,
+		// as the real resolver does
+		address = "10.0.0.3:1003"
+	}
 	return &net.TCPAddr{Zone: address}, nil
 }
 
